@@ -115,7 +115,9 @@ Selectable(r) == r.dom = {} /\ r.ndom = {} /\ r.left # "dpipe" /\ ~IsRedirect(r)
 FuseKey(r) ==
   LET x == Extract(Pat(r)) IN
   [types |-> AllowedTypes(r), party |-> r.party, fold |-> FoldKind(r), left |-> x.left, right |-> x.right,
-   regex |-> x.regex, exc |-> r.exc, important |-> r.important, ghide |-> r.ghide, badfilter |-> r.badfilter,
+   \* the regex bit is recomputed from the extracted filter text only when that text is not empty; a
+   \* pattern-less rule written '*' keeps the bit its '*' gave it
+   regex |-> (IF Len(x.filter) > 0 THEN x.regex ELSE HasRegexChar(r.body)), exc |-> r.exc, important |-> r.important, ghide |-> r.ghide, badfilter |-> r.badfilter,
    mkind |-> r.mkind, explicitTypes |-> (r.pos # {} \/ r.neg # {}),
    tag |-> IF DevKeyIgnoresTag THEN "" ELSE r.tag]
 
